@@ -919,7 +919,16 @@ func corpus() [][]op {
 	}
 }
 
+// mix64 (splitmix finalizer): hx.NewRng(seed) starts consecutive seeds one step apart on the same stream, so the derived
+// thorough seeds (seed*1000+k) would re-align and repeat each other's histories; scatter them first.
+func mix64(z uint64) uint64 {
+	z = (z ^ (z >> 30)) * 0xBF58476D1CE4E5B9
+	z = (z ^ (z >> 27)) * 0x94D049BB133111EB
+	return z ^ (z >> 31)
+}
+
 func Run(c *hx.Ctx) {
+	c.Rng = hx.NewRng(mix64(c.Seed + 0x632BE59BD9B4E019))
 	mlog.DefaultLogger.Toggle(true)
 	mlog.StartLogger.Toggle(true)
 	cluster.RegisterClusterType(nilClusterType, func(v2.Cluster) types.Cluster { return nil })
